@@ -500,10 +500,16 @@ func (rn *runner) diagnose(cs *Case, rule string) (*Case, string, int) {
 	}
 	for _, cl := range strRank {
 		cl := cl
+		if !cur.strClasses()[cl] {
+			continue
+		}
 		try("string:"+cl, func(c *Case) bool { return c.repairStrings(cl) })
 	}
 	for _, cl := range floatRank {
 		cl := cl
+		if !cur.floatClasses()[cl] {
+			continue
+		}
 		try("float:"+cl, func(c *Case) bool { return c.repairFloats(cl) })
 	}
 	if pos := cur.fp0(); pos != "" {
